@@ -44,6 +44,7 @@ def carriers_for(vals, rng, want_all=False):
             if all(info.min <= v <= info.max for v in vals):
                 out.append('arr:' + dt)
                 if n == 1: out.append('scalar:' + dt)
+                if np.dtype(dt).itemsize < 8: out.append(('listnp:' if n % 2 else 'tuplenp:') + dt)    # a list / tuple of NumPy scalars
     for dt in FLT_DTYPES:
         ok = True
         for v in vals:
@@ -54,7 +55,9 @@ def carriers_for(vals, rng, want_all=False):
         if ok:
             out.append('arr:' + dt)
             if n == 1: out.append('scalar:' + dt)
-    out += ['list', 'tuple', 'list_str']
+            if np.dtype(dt).itemsize < 8: out.append(('listnp:' if n % 2 else 'tuplenp:') + dt)
+    out += ['list', 'tuple', 'list_str', 'arr_str']
+    if n == 1: out.append('npstr')
     if n >= 2 and n % 2 == 0: out += ['nested', 'arr2d']
     return out
 
@@ -69,6 +72,10 @@ def build_carrier(name, vals):
     if name == 'list': return list(vals)
     if name == 'tuple': return tuple(vals)
     if name == 'list_str': return [dec_str(v) for v in vals]
+    if name == 'arr_str': return np.array([dec_str(v) for v in vals])
+    if name == 'npstr': return np.str_(dec_str(vals[0]))
+    if name.startswith('listnp:'): return [np.dtype(name[7:]).type(v) for v in vals]
+    if name.startswith('tuplenp:'): return tuple(np.dtype(name[8:]).type(v) for v in vals)
     if name == 'nested': return [list(vals[:len(vals)//2]), list(vals[len(vals)//2:])]
     if name == 'arr2d':
         dt = np.int64 if all(isinstance(v, int) for v in vals) and all(-2**63 <= v < 2**63 for v in vals) else np.float64
@@ -81,10 +88,10 @@ def carrier_model_arr(name, vals):
     """the (arr, vdt) the model receives: what np.array(carrier) / item(0) give.  Carrier
     glue (np.array dtype inference, float(str)) is outside the model and sampled only."""
     all_int = all(isinstance(v, int) for v in vals)
-    if name == 'list_str' or name == 'str':
+    if name in ('list_str', 'str', 'arr_str', 'npstr'):
         # str2num: float(x) if '.' in x or n_frac > 0 else int(x) -> decided by caller via [str_is_float]
         raise ValueError('string carriers are resolved by the caller')
-    if name.startswith('arr:float') or name.startswith('scalar:float') or name == 'pyfloat' or not all_int:
+    if name.startswith('arr:float') or name.startswith('scalar:float') or name.startswith('listnp:float') or name.startswith('tuplenp:float') or name == 'pyfloat' or not all_int:
         return ('f', [float(v) for v in vals])
     return ('i', [int(v) for v in vals])
 
@@ -133,7 +140,7 @@ def run_impl_store(case, with_callbacks=False):
             if rec: rec.log.clear()
             mode = case.get('setmode', 'slice')
             flat = np.asarray(val).reshape(-1) if not isinstance(val, (int, float, str)) else [val]
-            if case['carrier'] in ('pyint', 'pyfloat', 'str') or str(case['carrier']).startswith('scalar:'):
+            if case['carrier'] in ('pyint', 'pyfloat', 'str', 'npstr') or str(case['carrier']).startswith('scalar:'):
                 x[0] = val
             elif mode == 'each':
                 for i in range(n): x[i] = flat[i].item() if hasattr(flat[i], 'item') else flat[i]
@@ -168,9 +175,9 @@ def str_vals_as_model(case):
 def model_inputs(case):
     """(kind, vals) as the model sees the carrier"""
     name = case['carrier']
-    if name in ('str', 'list_str'):
+    if name in ('str', 'list_str', 'arr_str', 'npstr'):
         vals = str_vals_as_model(case)
-        if name == 'list_str' and not all(isinstance(v, int) for v in vals):
+        if name in ('list_str', 'arr_str') and not all(isinstance(v, int) for v in vals):
             vals = [float(v) for v in vals]
         kind = 'i' if all(isinstance(v, int) for v in vals) else 'f'
         return kind, vals
@@ -309,7 +316,7 @@ def check_store_cases(cases, res, stratum, pid, huge=False, keep_array=False):
 def case_shape(c):
     n = len(c['vals']); name = c['carrier']
     if c['route'] == 'setitem': return (n,)
-    if name in ('pyint', 'pyfloat', 'str') or name.startswith('scalar:'): return ()
+    if name in ('pyint', 'pyfloat', 'str', 'npstr') or name.startswith('scalar:'): return ()
     if name in ('nested', 'arr2d'): return (2, n // 2)
     return (n,)
 
